@@ -129,6 +129,7 @@ TermInRange(t, q) ==
 \*   spancontains a b        the spans of a that contain some span of b
 \*   spanbefore a b          the spans of a that end before every span of b starts (b must occur)
 \*   spancond a b            the spans of a, if b matches the document
+\*   sequence kids slop ordered   (query.Sequence) the sub-queries near one another, in order
 SOverlaps(x, y) == ~(x[2] < y[1] \/ y[2] < x[1])
 SDist(x, y) == IF SOverlaps(x, y) THEN 0 ELSE IF x[2] < y[1] THEN y[1] - x[2] ELSE x[1] - y[2]
 SJoin(x, y) == <<IF x[1] < y[1] THEN x[1] ELSE y[1], IF x[2] > y[2] THEN x[2] ELSE y[2]>>
@@ -143,7 +144,12 @@ SMerge(S) == {LET G == SGroup(S, {x}) IN
 SNear(A, B, slop, ordered, mindist) ==
   {SJoin(x, y) : <<x, y>> \in {p \in A \X B : /\ SDist(p[1], p[2]) >= mindist /\ SDist(p[1], p[2]) <= slop
                                                /\ (ordered => p[1][1] <= p[2][1])}}
-RECURSIVE Spans(_, _, _), SFold(_, _, _, _, _)
+RECURSIVE Spans(_, _, _), SFold(_, _, _, _, _), SeqTree(_, _, _, _, _)
+\* Sequence: the sub-queries are paired up as a balanced binary tree of "near" constraints
+SeqTree(idx, d, q, lo, hi) ==
+  IF lo = hi THEN Spans(idx, d, q.kids[lo])
+  ELSE LET half == (hi - lo + 1) \div 2
+       IN SNear(SeqTree(idx, d, q, lo, lo + half - 1), SeqTree(idx, d, q, lo + half, hi), q.slop, q.ordered, 1)
 SFold(idx, d, q, i, acc) ==
   IF i > Len(q.kids) THEN acc
   ELSE SFold(idx, d, q, i + 1, SNear(acc, Spans(idx, d, q.kids[i]), q.slop, q.ordered, q.mindist))
@@ -154,13 +160,15 @@ Spans(idx, d, q) ==
     [] q.op = "spanfirst" -> {x \in Spans(idx, d, q.q) : x[2] <= q.limit}
     [] q.op = "spannear" -> SNear(Spans(idx, d, q.a), Spans(idx, d, q.b), q.slop, q.ordered, q.mindist)
     [] q.op = "spannear2" -> IF q.kids = <<>> THEN {} ELSE SFold(idx, d, q, 2, Spans(idx, d, q.kids[1]))
+    [] q.op = "sequence" -> IF q.kids = <<>> THEN {} ELSE SeqTree(idx, d, q, 1, Len(q.kids))
     [] q.op = "spannot" -> LET B == Spans(idx, d, q.b) IN {x \in Spans(idx, d, q.a) : \A y \in B : ~SOverlaps(x, y)}
     [] q.op = "spancontains" -> LET B == Spans(idx, d, q.b) IN
                                 {x \in Spans(idx, d, q.a) : \E y \in B : y[1] >= x[1] /\ y[2] <= x[2]}
     [] q.op = "spanbefore" -> LET B == Spans(idx, d, q.b) IN
                               IF B = {} THEN {} ELSE {x \in Spans(idx, d, q.a) : \A y \in B : x[2] < y[1]}
     [] q.op = "spancond" -> IF Spans(idx, d, q.b) = {} THEN {} ELSE Spans(idx, d, q.a)
-SpanOps == {"spanor", "spanfirst", "spannear", "spannear2", "spannot", "spancontains", "spanbefore", "spancond"}
+SpanOps == {"spanor", "spanfirst", "spannear", "spannear2", "spannot", "spancontains", "spanbefore", "spancond",
+            "sequence"}
 
 RECURSIVE Denote(_, _)
 Denote(idx, q) ==
